@@ -52,6 +52,31 @@ def run(args):
         [p for p in Fam.closure_programs() if p["feats"]["variant"] in ("read-direct", "write", "list", "loop", "nested", "global", "shadow-inner", "shadow-later")]
     progs += Fam.random_programs(150 if thorough else 30, C.seed() + 14)
     results, cases, rendered = sem.run_programs(progs, rep, backends=("vm", "tree"), pool=pool, reps=reps)
+    # (2b) programs of several modules whose output shows names the compiler makes up
+    multi = [
+        {"main": "import lf from lib;\nimport kf from kit;\nfn main() { let f = fn() -> int { 1 }; println(f); lf(); kf(); let g = fn() -> int { 2 }; println(g); }\n",
+         "lib": "pub fn lf() { let g = fn() -> int { 2 }; let h = fn() -> int { 3 }; println(g, h); }\nfn main() { }\n",
+         "kit": "let names = [\"a\"];\npub fn kf() { let k = fn(a: int) -> int { a }; println(k, names); }\nfn main() { }\n"},
+    ]
+    mreqs = []
+    for mods in multi:
+        for b in ("vm", "tree"):
+            for k in range(reps * 3):
+                mreqs.append({"op": "run", "id": len(mreqs), "a": {"modules": mods, "entry": "main", "backend": b, "timeout_ms": 8000}})
+    mfirst = {}
+    for q, r in zip(mreqs, pool.map(mreqs, timeout=30)):
+        rep.count()
+        key = (json.dumps(q["a"]["modules"], sort_keys=True), q["a"]["backend"])
+        rep.nontrivial(key[0])
+        if "r" not in r:
+            rep.fail({"family": "multi-module", "backend": q["a"]["backend"], "kind": "hostcrash", "panic": sem.panic_class((r.get("crash") or {}).get("stderr", ""))},
+                     {"modules": q["a"]["modules"], "real": str(r)[:1500]})
+            continue
+        o = (r["r"]["accepted"], r["r"]["out"], (r["r"].get("outcome") or {}).get("kind"))
+        f = mfirst.setdefault(key, o)
+        if f != o:
+            rep.fail({"family": "multi-module", "backend": q["a"]["backend"], "kind": "repetition-differs", "what": "output"},
+                     {"modules": q["a"]["modules"], "first": f, "now": o})
     # (3) diagnostics
     srcs = diag_inputs(pool, rnd, 30 if thorough else 6)
     reqs = []
